@@ -40,9 +40,9 @@ def list_surface(h):
         ev.append(("op", h, "count", (v,)))
         ev.append(("op", h, "contains", (v,)))
         ev.append(("op", h, "remove", (v,)))
-    for start in (-4, -1, 0, 1, 2, 9):
+    for start in (-1, 0, 1, 9):
         ev.append(("op", h, "index", (0, start)))
-        for stop in (-9, -1, 0, 1, 2, 9):
+        for stop in (-1, 0, 1, 9):
             ev.append(("op", h, "index", (0, start, stop)))
     ev.append(("op", h, "index", ({"b": [0]}, -2, 5)))
     ev.append(("op", h, "index", ([1, {"a": 0}], 0, 0)))
